@@ -41,7 +41,11 @@ type variantFile struct {
 	Quiet    bool     `json:"quiet"`
 	Expect   string   `json:"expect"` // substring of a failing obligation key (optional)
 	Why      string   `json:"why"`
-	Edits    []struct {
+	// Base names a stored refactoring (/verif/refactorings/<Base>) that is
+	// applied first; Find/Replace then edit the refactored source. This is how
+	// a breaking change is placed on top of a behaviour-preserving rewrite.
+	Base  string `json:"base"`
+	Edits []struct {
 		File    string `json:"file"`
 		Find    string `json:"find"`
 		Replace string `json:"replace"`
@@ -279,14 +283,38 @@ func thorough(prop *Property, p *Prog, rep *Report, repo string) {
 				continue
 			}
 			path := filepath.Join(repo, v.File)
-			src, err := os.ReadFile(path)
-			if err != nil || strings.Count(string(src), v.Find) < 1 {
+			baseOv := map[string][]byte{}
+			if v.Base != "" {
+				pb, err := os.ReadFile(filepath.Join(verifDir(), "refactorings", v.Base, "patch.diff"))
+				if err == nil {
+					baseOv, err = applyUnifiedDiff(repo, string(pb))
+				}
+				if err != nil {
+					total++
+					skipped++
+					results = append(results, result{v.ID, "skipped", "the refactoring it builds on does not apply to the current tree"})
+					continue
+				}
+			}
+			src, have := baseOv[path]
+			if !have {
+				var err error
+				src, err = os.ReadFile(path)
+				if err != nil {
+					src = nil
+				}
+			}
+			if src == nil || strings.Count(string(src), v.Find) < 1 {
 				total++
 				skipped++
 				results = append(results, result{v.ID, "skipped", "the text to rewrite is not present in the current tree"})
 				continue
 			}
-			ov := map[string][]byte{path: []byte(strings.Replace(string(src), v.Find, v.Replace, 1))}
+			ov := map[string][]byte{}
+			for k, b := range baseOv {
+				ov[k] = b
+			}
+			ov[path] = []byte(strings.Replace(string(src), v.Find, v.Replace, 1))
 			okEdits := true
 			for _, e := range v.Edits {
 				ep := filepath.Join(repo, e.File)
